@@ -4,6 +4,7 @@
 #include <unistd.h>
 #include <sys/wait.h>
 #include <signal.h>
+#include <sys/time.h>
 #include <time.h>
 #include <fstream>
 #include <sstream>
@@ -13,6 +14,15 @@ extern "C" __attribute__((used, visibility("default"))) const char* __asan_defau
 }
 extern "C" __attribute__((used, visibility("default"))) const char* __ubsan_default_options() { return "halt_on_error=1:exitcode=77:print_stacktrace=0"; }
 
+// Watchdog for calls that never return (uninstrumented builds have no step budget). It counts CPU time of the process,
+// not wall-clock time, so that a loaded machine cannot turn a slow run into an alarm; a generous wall-clock alarm
+// remains for the case of a process that sleeps forever.
+static void watchdog(int cpu_seconds) {
+    struct itimerval it; memset(&it, 0, sizeof it);
+    it.it_value.tv_sec = cpu_seconds;
+    setitimer(ITIMER_PROF, &it, nullptr);
+    alarm(cpu_seconds * 20 + 600);
+}
 static double now_s() { struct timespec ts; clock_gettime(CLOCK_MONOTONIC, &ts); return ts.tv_sec + ts.tv_nsec * 1e-9; }
 
 static std::string read_file(const std::string& p) { std::ifstream f(p, std::ios::binary); std::stringstream ss; ss << f.rdbuf(); return ss.str(); }
@@ -139,7 +149,7 @@ static ChildResult run_in_child(const Plan& p, const Cfg& c, u64 sseed, bool wan
     pid_t pid = fork();
     if (pid == 0) {
         if (!freopen(errpath.c_str(), "w", stderr)) _exit(5);
-        alarm(p.ops.size() > 2000 ? 120 : 8);
+        watchdog(p.ops.size() > 2000 ? 600 : 60);
         sim::init(env::MAXT);
         Cfg c2 = c; c2.keep_log = want_log;
         Stats agg; u64 lh = 0;
@@ -172,7 +182,7 @@ static ChildResult run_in_child(const Plan& p, const Cfg& c, u64 sseed, bool wan
         if (err.find("AddressSanitizer") != std::string::npos) { kind = "asan"; size_t p2 = err.find("ERROR: AddressSanitizer: "); if (p2 != std::string::npos) { size_t e = err.find_first_of(" \n", p2 + 25); kind = "asan-" + err.substr(p2 + 25, e - (p2 + 25)); } }
         else if (err.find("runtime error") != std::string::npos) kind = "ubsan";
         else if (err.find("Assertion") != std::string::npos) kind = "assert";
-        else if (WIFSIGNALED(status) && WTERMSIG(status) == SIGALRM) kind = "hang";
+        else if (WIFSIGNALED(status) && (WTERMSIG(status) == SIGALRM || WTERMSIG(status) == SIGPROF)) kind = "hang";
         else if (WIFSIGNALED(status)) kind = strf("signal-%d", WTERMSIG(status));
         cr.cls = "crash/" + kind; cr.msg = "the library did not survive the history (" + why + "): " + diag;
         return cr;
@@ -327,7 +337,7 @@ int main(int argc, char** argv) {
         if (c.fresh && done > 0) break;      // a fresh plan is the first and only run of its process
         Plan p = gen::make(c.prop, rs, (int)(r % 1000000), c.fresh);
         printf("START %ld\n", r); fflush(stdout);
-        alarm(20);         // uninstrumented builds have no step budget: a call that never returns ends the worker, the driver replays the run
+        watchdog(90);      // a call that never returns ends the worker (SIGPROF), the driver replays the run
         u64 lh = 0; bool nt = false; int ops_run = 0;
         Finding f = check_plan(p, c, rs, agg, &lh, &nt, &ops_run);
         ++done; ops_total += ops_run;
